@@ -19,6 +19,9 @@ CHECKS = {
  "C13": dict(engine="gcsim", technique=TECH+"seeded histories over a forest of VMs and thread trees: make/transfer (re_root, channel from coroutine, allocation failure during the clone)/collect/drop thread/drop VM/call, forced collections; canonical graph encoding (guarded hook) for isomorphism, Trace-driven ownership walk after every operation",
    text="Seeded exploration of transfer histories: every copy's object graph encoding (sharing and cycles included, closures and cells followed) equals the original's, stays equal after the sender is collected or dropped, received closures compute isomorphic results, and after every operation no heap holds a pointer into a heap that is neither itself nor an ancestor and no freed object is reachable.",
    note="Trusted: the guarded graph encoder and owner ids in vm/src/value.rs, gc.rs; two VMs in one process stand in for unrelated VMs.", ref="DESIGN.md §4 C13"),
+ "C15": dict(engine="modsim", technique=TECH+"seeded edit/evaluate/cancel histories on one long-lived VM against a brand-new VM with the current sources after every evaluation (refinement), evaluation counter per (module, version) and epoch, cancellation injected at debug-hook yields, hang = pending with no wake-up",
+   text="Seeded exploration of module edit histories (value/type changes, import edges, cycles, type/parse/run-time errors in dependencies, add_module vs load_script, cancelled evaluations): every evaluation outcome equals a fresh VM's, reported cycles lie on a cycle of the current import graph, no module body runs twice between two edits, nothing hangs.",
+   note="Trusted: the fresh VM is the reference; error message text is not compared (C16), only error class and cycle membership.", ref="DESIGN.md §4 C15"),
  "C17": dict(engine="corosim", technique=TECH+"the simulator schedules gluon coroutines (generated resume order) and, in the multi-thread class, polls several gluon threads and fires host futures in tape order; observation log checked operation by operation against an executable reference model; hang = pending with no runnable task",
    text="Seeded exploration of coroutine interleavings and fault placements (failing thunks, self-dependent lazies, resume of dead threads, empty receives, forced collections). Every observation made through the harness extern function is compared with an executable model of channels (FIFO, exactly once, non-blocking), references (last store wins) and lazies (at most once, same value, error not hang).",
    note="Trusted: the executable model (about 300 lines) encodes the documented contracts; behaviour the property does not specify (resuming a coroutine that died, program-level deadlock) is excluded by the generator.", ref="DESIGN.md §4 C17"),
@@ -36,7 +39,7 @@ NA = {
  "C19":"immutable single-threaded library code; operation sequences are inputs to pure functions",
  "C20":"pure function of (program, cursor offset)",
 }
-PLANNED = {"C14":"threadsim","C15":"modsim","C16":"detsim"}
+PLANNED = {"C14":"threadsim","C16":"detsim"}
 
 def commits():
     out = subprocess.run(["git","-C","/repo","log","--format=%h %s"],capture_output=True,text=True).stdout
